@@ -768,6 +768,62 @@ def is_full_slice(x):
     return isinstance(x, T) and x.op == 'slice' and all(const_val(a) is None for a in x.args)
 
 
+def _literal_leaf(leaf):
+    """a path leaf whose truth value / None-ness is known: ('val', python value) | ('notnone',) for a tuple / list literal | ('dead',) for a path that does not continue | None"""
+    if not isinstance(leaf, T):
+        return None
+    if leaf.op == 'raise' or (leaf.op == 'unknown' and leaf.args == ('keyerror',)):
+        return ('dead',)
+    v = const_val(leaf)
+    if v is not NOVAL:
+        return ('val', v)
+    if leaf.op in ('tuple', 'list'):
+        return ('notnone', len(leaf.args[0]) > 0)
+    return None
+
+
+def _decided_condition(c, conds, depth):
+    """[(path condition, truth value)] of a condition that only depends on enclosing tests: a conditional of constants, or a None test of a conditional of literals; else None"""
+    cg = c
+    while isinstance(cg, T) and cg.op == 'refine':
+        cg = cg.args[0]
+    if not isinstance(cg, T):
+        return None
+    if cg.op == 'gamma':
+        out = []
+        for c1, leaf in gamma_paths(cg, conds, depth + 1):
+            k = _literal_leaf(leaf)
+            if k is None:
+                return None
+            if k[0] == 'dead':
+                continue
+            out.append((c1, bool(k[1])))
+        return out
+    if cg.op == 'cmp' and cg.args[0] in ('Is', 'IsNot', 'Eq', 'NotEq'):
+        a, b = cg.args[1], cg.args[2]
+        if const_val(b) is None and const_val(a) is not None:
+            x = a
+        elif const_val(a) is None and const_val(b) is not None:
+            x = b
+        else:
+            return None
+        while isinstance(x, T) and x.op == 'refine':
+            x = x.args[0]
+        if not (isinstance(x, T) and x.op == 'gamma'):
+            return None
+        out = []
+        for c1, leaf in gamma_paths(x, conds, depth + 1):
+            k = _literal_leaf(leaf)
+            if k is None:
+                return None
+            if k[0] == 'dead':
+                continue
+            is_none = k[0] == 'val' and k[1] is None
+            out.append((c1, is_none if cg.args[0] in ('Is', 'Eq') else not is_none))
+        return out
+    return None
+
+
 def gamma_paths(t, conds=None, depth=0):
     """[(path condition {id(cond): (cond term, polarity)}, leaf term)] of a gamma tree (refinements are looked through)"""
     conds = conds or {}
@@ -776,6 +832,14 @@ def gamma_paths(t, conds=None, depth=0):
         t0 = t0.args[0]
     if isinstance(t0, T) and t0.op == 'gamma' and depth < 40:
         c, pol = cond_polarity(t0.args[0])
+        decided = _decided_condition(c, conds, depth)
+        if decided is not None:
+            # a flag that was itself selected by tests (`pooled = kind == 'spherical'`, a column of a dispatch table, `index is None` for an index taken from a table):
+            # follow the tests that selected it
+            out = []
+            for c1, val in decided:
+                out += gamma_paths(t0.args[1] if val == pol else t0.args[2], c1, depth + 1)
+            return out
         out = []
         for br, p in ((t0.args[1], pol), (t0.args[2], not pol)):
             prev = conds.get(id(c))
@@ -791,6 +855,69 @@ def gamma_paths(t, conds=None, depth=0):
 def compatible(c1, c2):
     """two path conditions that do not test the same condition with opposite outcomes"""
     return all(k not in c2 or c2[k][1] == v[1] for k, v in c1.items())
+
+
+def reaches_param_avoiding(t, pname, barrier, target=None, assume=None):
+    """is there a data path from term t down to the parameter `pname` (or to a term satisfying `target`) that does not pass through a term satisfying `barrier`?
+    (conditions of gammas are not data; `assume(cond)` -> True / False fixes the outcome of a test, None leaves both alternatives open)"""
+    seen, stack = set(), [t]
+    while stack:
+        x = stack.pop()
+        if not isinstance(x, T) or x.id in seen:
+            continue
+        seen.add(x.id)
+        if barrier(x):
+            continue
+        if target is not None and target(x):
+            return True
+        if x.op == 'param':
+            if pname is not None and x.args[0] == pname:
+                return True
+            continue
+        args = x.args[1:] if x.op == 'gamma' else x.args
+        if x.op == 'gamma' and assume is not None:
+            c, pol = cond_polarity(x.args[0])
+            v = assume(c)
+            if v is not None:
+                args = (x.args[1],) if v == pol else (x.args[2],)
+        for a in args:
+            if isinstance(a, T):
+                stack.append(a)
+            elif isinstance(a, tuple):
+                for b in a:
+                    if isinstance(b, T):
+                        stack.append(b)
+                    elif isinstance(b, tuple):
+                        stack.extend(c for c in b if isinstance(c, T))
+    return False
+
+
+def _names_option(x, pname):
+    """the parameter `pname`, or the attribute of that name of self (an option stored by the constructor)"""
+    return (x.op == 'param' and x.args[0] == pname) or (x.op == 'attr' and x.args[1] == pname and strip_views(x.args[0]).op == 'param' and strip_views(x.args[0]).args[0] == 'self')
+
+
+def selected_options(conds, pname):
+    """path condition -> the option strings this path has positively selected for parameter `pname` (`pname == 'x'`, `pname in ['x', 'y']`): a list of
+    sets, one per positive test (a path through `if a: ... elif b:` carries one positive test at most, further ones come from nested tests)"""
+    out = []
+    for c, pol in conds.values():
+        if not pol or not (isinstance(c, T) and c.op == 'cmp'):
+            continue
+        a, b = strip_views(c.args[1]), strip_views(c.args[2])
+        if c.args[0] == 'Eq':
+            for x, y in ((a, b), (b, a)):
+                if _names_option(x, pname) and isinstance(const_val(y), str):
+                    out.append({const_val(y)})
+        elif c.args[0] == 'In' and _names_option(a, pname):
+            items = None
+            if b.op in ('tuple', 'list', 'set'):
+                items = [const_val(strip_views(x)) for x in b.args[0]]
+            elif isinstance(const_val(b), (tuple, list)):
+                items = list(const_val(b))
+            if items and all(isinstance(x, str) for x in items):
+                out.append(set(items))
+    return out
 
 
 def axis_reordering(t):
@@ -1009,3 +1136,61 @@ def indexed_values(graph):
                 if els:
                     out.append(((els[0].extra,), t.args[1][0], t.node))
     return out
+
+
+REAL_VALUED = ('numpy.abs', 'numpy.absolute', 'builtin.abs', 'numpy.angle', 'numpy.linalg.norm', 'numpy.isfinite', 'numpy.isnan', 'numpy.argmax', 'numpy.argmin', 'numpy.trace_real')
+ELEMENTWISE_SAME = ('numpy.log', 'numpy.exp', 'numpy.sqrt', 'numpy.conj', 'numpy.conjugate', 'numpy.sum', 'numpy.mean', 'numpy.maximum', 'numpy.minimum', 'numpy.clip', 'numpy.reshape',
+                    'numpy.transpose', 'numpy.swapaxes', 'numpy.moveaxis', 'numpy.squeeze', 'numpy.expand_dims', 'numpy.array', 'numpy.asarray', 'numpy.copy', 'numpy.ascontiguousarray',
+                    'numpy.broadcast_to', 'numpy.negative', 'numpy.square', 'numpy.cumsum', 'numpy.prod', 'numpy.trace', 'numpy.diagonal', 'numpy.stack', 'numpy.concatenate', 'numpy.einsum',
+                    'numpy.matmul', 'numpy.dot', 'numpy.multiply', 'numpy.add', 'numpy.subtract', 'numpy.divide', 'numpy.where', 'numpy.take_along_axis')
+
+
+def decided_complex(t, complex_params, memo=None, depth=0):
+    """True when t is COMPLEX-TYPED whatever the real parts happen to be: it is computed from a complex-valued parameter by operations that keep the complex type
+    (arithmetic, contractions, reductions, views), with no `.real` / `.imag` / abs / angle on the way.  False means 'real or not known' - never grounds for a report."""
+    if memo is None:
+        memo = {}
+    if not isinstance(t, T) or depth > 80:
+        return False
+    if t.id in memo:
+        return memo[t.id]
+    memo[t.id] = False
+    r = False
+    op = t.op
+    if op == 'param':
+        r = t.args[0] in complex_params
+    elif op == 'const':
+        r = isinstance(t.args[0], complex)
+    elif op == 'refine':
+        r = decided_complex(t.args[0], complex_params, memo, depth + 1)
+    elif op == 'attr':
+        r = False if t.args[1] in ('real', 'imag', 'shape', 'ndim', 'dtype', 'size') else (t.args[1] == 'T' and decided_complex(t.args[0], complex_params, memo, depth + 1))
+    elif op in ('binop', 'iop'):
+        if t.args[0] in ('Add', 'Sub', 'Mult', 'Div', 'MatMult', 'Pow'):
+            r = decided_complex(t.args[1], complex_params, memo, depth + 1) or (t.args[0] != 'Pow' and decided_complex(t.args[2], complex_params, memo, depth + 1))
+    elif op == 'unop':
+        r = t.args[0] in ('USub', 'UAdd') and decided_complex(t.args[1], complex_params, memo, depth + 1)
+    elif op == 'gamma':
+        r = decided_complex(t.args[1], complex_params, memo, depth + 1) and decided_complex(t.args[2], complex_params, memo, depth + 1)
+    elif op in ('sub', 'mu', 'store'):
+        r = decided_complex(t.args[0], complex_params, memo, depth + 1)
+    elif op == 'call':
+        n, pos, kw = call_parts(t)
+        if n is not None:
+            c = canon(n)
+            if c in REAL_VALUED:
+                r = False
+            elif c in ELEMENTWISE_SAME or (n.startswith('method:') and canon('numpy.' + n.split(':')[1]) in ELEMENTWISE_SAME):
+                ops = [p for p in pos if isinstance(p, T) and not isinstance(const_val(p), str)]
+                if c in ('numpy.stack', 'numpy.concatenate') and ops and ops[0].op in ('tuple', 'list'):
+                    ops = list(ops[0].args[0])
+                if c == 'numpy.where':
+                    ops = ops[1:]
+                if c in ('numpy.reshape', 'numpy.transpose', 'numpy.swapaxes', 'numpy.moveaxis', 'numpy.squeeze', 'numpy.expand_dims', 'numpy.sum', 'numpy.mean', 'numpy.broadcast_to',
+                         'numpy.cumsum', 'numpy.prod', 'numpy.trace', 'numpy.diagonal', 'numpy.array', 'numpy.asarray', 'numpy.take_along_axis', 'numpy.maximum', 'numpy.minimum', 'numpy.clip'):
+                    ops = ops[:1]
+                    if c in ('numpy.array', 'numpy.asarray') and (len(pos) > 1 or kw.get('dtype') is not None):
+                        ops = []            # an explicit dtype decides the type
+                r = any(decided_complex(p, complex_params, memo, depth + 1) for p in ops)
+    memo[t.id] = r
+    return r
